@@ -856,6 +856,35 @@ func (e *Env) call(x *CE, pos bool) CV {
 		n.depth = e.depth + 1
 		return n.tr(ax.Body, pos)
 	}
+	if lem, ok := g.Specs.Lemmas[name]; ok && e.axiomUse {
+		// a proved lemma named inside "use forall ... :: lemma(args)": hypotheses ==> conclusions
+		if len(args) != len(lem.Params) {
+			fail("%s: lemma %s takes %d arguments", x, name, len(lem.Params))
+		}
+		vars := map[string]CV{}
+		for i, p := range lem.Params {
+			v := argv(i)
+			ty, so := g.resolveType(p.Type)
+			if v.So != so {
+				v = e.coerce(v, so)
+			}
+			if ty != nil {
+				v.Ty = ty
+			}
+			vars[p.Name] = v
+		}
+		n := e.with(vars)
+		n.cells = nil
+		n.depth = e.depth + 1
+		var pre, post []string
+		for _, c := range lem.Requires {
+			pre = append(pre, n.tr(c.E, pos).S)
+		}
+		for _, c := range lem.Ensures {
+			post = append(post, n.tr(c.E, pos).S)
+		}
+		return g.cv(imp(and(pre...), and(post...)), "Bool", nil)
+	}
 	if d, ok := g.Specs.Defines[name]; ok {
 		if e.depth > 40 {
 			fail("define %s: expansion too deep (recursive?)", name)
